@@ -840,51 +840,44 @@ theorem applyFunction_qstep {P : Qp} {fuel : Nat} (ih : QSpec fuel) : ∀ fn arg
           { t2 with cur := nenv, outs := [] :: t2.outs } :=
         StRq.retarget (P' := { P with e := nenv, pre := False }) hR2 rfl rfl rfl rfl _ _ _ _ rfl (by rw [hR2.outs]) rfl
           (Or.inr hnenv)
-      cases hte0 : t2.frames[nenv]? with
-      | none =>
-        intro b t' hy _
-        rw [runM_bind, runM_getFrame_none (st := { t2 with cur := nenv, outs := [] :: t2.outs }) hte0] at hy
-        cases hy
-      | some ft0 =>
-        obtain ⟨fs0, hfs0, hfr0⟩ := hR2.frames nenv ft0 hte0
-        refine SimQ.bind_read (runM_getFrame (st := { s2 with cur := sh P.σ nenv, outs := [] :: s2.outs }) hfs0)
-          (runM_getFrame (st := { t2 with cur := nenv, outs := [] :: t2.outs }) hte0) ?_
-        rw [(hfr0.missNew hnenv).1]
-        refine SimG.switch (e' := nenv) (R1 := StRq { P with e := nenv, pre := False })
-          (ih.eval { P with e := nenv, pre := False } (fun h => h) f.body _ _ hR3) ?hl ?hf (hT.eval _) (by tr_ih)
-        case hl =>
-          intro res t4 _ hne
-          cases hte1 : t4.frames[nenv]? with
-          | none =>
-            intro b t' hr
-            rw [runM_bind, runM_getFrame_none hte1] at hr
-            cases hr
-          | some ft1 =>
-            refine LoudAt.bind_read (runM_getFrame hte1) ?_
-            refine LoudAt.bind_read (runM_get t4) ?_
-            try dsimp only
-            refine LoudAt.set_bind rfl ?_
-            refine (finishCall_loud _ _ _ _ _ _ _ _ ?_).at _
-            rw [missOf_of_frame hte1, missOf_of_frame (t := { t2 with cur := nenv, outs := [] :: t2.outs }) hte0] at hne
-            simp only [bne_iff_ne, ne_eq]
-            exact hne
-        case hf =>
-          rintro _ res s4 t4 hR4 ⟨rfl, hcres⟩
-          cases hte1 : t4.frames[nenv]? with
-          | none =>
-            intro b t' hy _
-            rw [runM_bind, runM_getFrame_none hte1] at hy
-            cases hy
-          | some ft1 =>
-            obtain ⟨fs1, hfs1, hfr1⟩ := hR4.frames nenv ft1 hte1
-            refine SimG.bind_read (runM_getFrame hfs1) (runM_getFrame hte1) ?_
-            rw [(hfr1.missNew hnenv).1, (hfr1.missNew hnenv).2]
-            refine SimG.bind_read (runM_get s4) (runM_get t4) ?_
-            rw [hR4.outs]
-            try dsimp only
-            refine SimG.set_bind rfl ?_
-            refine qsim_finishCall ?_ f args P.e _ _ _ res _ hcres
-            exact StRq.retarget (P := { P with e := nenv, pre := False }) (P' := P) hR4 rfl rfl rfl rfl _ _ _ _ rfl rfl rfl hR2.enew
+      refine SimG.switch (e' := nenv) (R1 := StRq { P with e := nenv, pre := False })
+        (ih.eval { P with e := nenv, pre := False } (fun h => h) f.body _ _ hR3) ?hl ?hf (hT.eval _) (by tr_ih)
+      case hl =>
+        intro res t4 hy4 hne
+        have hmono : missOf { t2 with cur := nenv, outs := [] :: t2.outs } nenv ≤ missOf t4 nenv := by
+          have := missOf_mono (hT.eval f.body) { t2 with cur := nenv, outs := [] :: t2.outs } nenv
+          rw [hy4] at this; exact this
+        cases hte1 : t4.frames[nenv]? with
+        | none =>
+          intro b t' hr
+          rw [runM_bind, runM_getFrame_none hte1] at hr
+          cases hr
+        | some ft1 =>
+          refine LoudAt.bind_read (runM_getFrame hte1) ?_
+          refine LoudAt.bind_read (runM_get t4) ?_
+          try dsimp only
+          refine LoudAt.set_bind rfl ?_
+          refine (finishCall_loud _ _ _ _ _ _ _ _ ?_).at _
+          rw [missOf_of_frame hte1] at hne hmono
+          simp only [bne_iff_ne, ne_eq]
+          omega
+      case hf =>
+        rintro _ res s4 t4 hR4 ⟨rfl, hcres⟩
+        cases hte1 : t4.frames[nenv]? with
+        | none =>
+          intro b t' hy _
+          rw [runM_bind, runM_getFrame_none hte1] at hy
+          cases hy
+        | some ft1 =>
+          obtain ⟨fs1, hfs1, hfr1⟩ := hR4.frames nenv ft1 hte1
+          refine SimG.bind_read (runM_getFrame hfs1) (runM_getFrame hte1) ?_
+          rw [(hfr1.missNew hnenv).1, (hfr1.missNew hnenv).2]
+          refine SimG.bind_read (runM_get s4) (runM_get t4) ?_
+          rw [hR4.outs]
+          try dsimp only
+          refine SimG.set_bind rfl ?_
+          refine qsim_finishCall ?_ f args P.e _ _ _ res _ hcres
+          exact StRq.retarget (P := { P with e := nenv, pre := False }) (P' := P) hR4 rfl rfl rfl rfl _ _ _ _ rfl rfl rfl hR2.enew
   | _ =>
     all_goals
       simp only [ren]
